@@ -182,8 +182,9 @@ type KCase struct {
 	Stalled       bool
 	MarkerVisible bool
 	MarkerWatched bool
-	Choices       []int   // thread chosen at each step
-	Alive         [][]int // threads that could have been chosen at each step
+	ProbeFailures []string // follow-up probes (Get, then an update naming the Get's revision or a create) that misbehaved
+	Choices       []int    // thread chosen at each step
+	Alive         [][]int  // threads that could have been chosen at each step
 	Note          string
 }
 
@@ -909,6 +910,9 @@ func (n *KBNode) RunCase(spec KBSpec) (*KCase, error) {
 			return n.watched[string(mk)] == c.Marker
 		})
 	}
+	if !c.Stalled {
+		n.probe(c, nkeys)
+	}
 	if c.Stalled {
 		n.Dead = true
 	}
@@ -1114,4 +1118,56 @@ func (n *KBNode) RunReadCase(r *Rand, fixedWrites []KReq, fixedInit []int) (*KRe
 		return c, fmt.Errorf("stalled after the sequencer was released")
 	}
 	return c, nil
+}
+
+// probe makes lost updates observable from the client side: after the schedule, every key is read;
+// a live key must be readable at its index revision and accept an update naming that revision, an
+// absent or deleted key must read as absent and accept a create.
+func (n *KBNode) probe(c *KCase, nkeys int) {
+	ctx := context.Background()
+	last := c.Marker
+	for i := 0; i < nkeys; i++ {
+		k := n.Key(i)
+		ks := c.Final[i]
+		live := ks.HasIdx && !ks.IdxDel
+		g, err := n.B.Get(ctx, &proto.GetRequest{Key: k})
+		if err != nil || g == nil {
+			c.ProbeFailures = append(c.ProbeFailures, fmt.Sprintf("key %d: Get failed: %v", i, err))
+			continue
+		}
+		if live {
+			var val []byte
+			for _, v := range ks.Vers {
+				if v.Rev == ks.IdxRev {
+					val = v.Val
+				}
+			}
+			if g.Kv == nil || g.Kv.Revision != ks.IdxRev || !bytes.Equal(g.Kv.Value, val) {
+				c.ProbeFailures = append(c.ProbeFailures, fmt.Sprintf("key %d: index says live at %d but Get returned %v", i, ks.IdxRev, g.Kv))
+				continue
+			}
+			r := n.Do(KReq{Op: OpUpdate, Val: []byte("probe"), Rev: g.Kv.Revision}, k)
+			if r.Err || !r.Succ {
+				c.ProbeFailures = append(c.ProbeFailures, fmt.Sprintf("key %d: update naming the revision Get returned (%d) was refused", i, g.Kv.Revision))
+			}
+			if !r.Err && r.Hdr > last {
+				last = r.Hdr
+			}
+		} else {
+			if g.Kv != nil {
+				c.ProbeFailures = append(c.ProbeFailures, fmt.Sprintf("key %d: no live index record but Get returned revision %d", i, g.Kv.Revision))
+				continue
+			}
+			r := n.Do(KReq{Op: OpCreate, Val: []byte("probe")}, k)
+			if r.Err || !r.Succ {
+				c.ProbeFailures = append(c.ProbeFailures, fmt.Sprintf("key %d: reads as absent but a create was refused", i))
+			}
+			if !r.Err && r.Hdr > last {
+				last = r.Hdr
+			}
+		}
+	}
+	if !n.WaitRev(last, 2*time.Second) {
+		n.Dead = true
+	}
 }
